@@ -7,7 +7,7 @@ Q_FlusherOps == [f1 |-> "flushInf"]
 Q2_SenderOps == [s1 |-> <<"try", "send">>, s2 |-> <<"block0">>]
 Q2_FlusherOps == [f1 |-> "flush0", f2 |-> "cbPanic"]
 \* third quick config: a panicking callback and a waiting flusher on the same batch
-Q3_SenderOps == [s1 |-> <<"send", "try">>]
+Q3_SenderOps == [s1 |-> <<"sendS", "try">>]
 Q3_FlusherOps == [f1 |-> "cbPanic", f2 |-> "flushInf", f3 |-> "cbPanic"]
 \* fourth quick config: the async tokio flush and a callback that blocks the receiver
 Q4_SenderOps == [s1 |-> <<"send", "send", "send">>, s2 |-> <<"weCb">>]
@@ -16,7 +16,7 @@ Q6_SenderOps == [s1 |-> <<"send", "send">>, s2 |-> <<"blockTokio">>]
 Q6_FlusherOps == [f1 |-> "flush0"]
 Q4_FlusherOps == [f1 |-> "flushTokio", f2 |-> "cbPark"]
 \* seventh quick config: one thread flushes twice (a timed-out flush, then a waiting one)
-Q7_SenderOps == [s1 |-> <<"send", "send">>]
+Q7_SenderOps == [s1 |-> <<"send", "sendS">>]      \* the second send is issued from inside a sampler of the channel's own metrics
 Q7_FlusherOps == [f1 |-> "flush0", f2 |-> "flushInfSame"]
 \* eighth quick config: raw when_empty callbacks that panic (inline on the caller, or on the receiver)
 Q8_SenderOps == [s1 |-> <<"weCbPanic", "send">>, s2 |-> <<"send", "weCbPanic", "try">>]
